@@ -310,7 +310,7 @@ impl Check for C10B {
         }
     }
     fn quick_runs(&self) -> u64 {
-        1500
+        700
     }
     fn entropy(&self, s: &TScn) -> u64 {
         s.base.entropy
